@@ -231,6 +231,28 @@ CHECKS = {
         "listed as known findings."),
   technique="TLC-enumerated edit/read histories vs. fresh-dataset oracle",
  ),
+ "C12": dict(
+  level="model_checking",
+  design_ref="DESIGN.md sections 5 (C12) and 7",
+  text=("StatsSpec defines the events an analysis may use (mask, or all "
+        "when filters are disabled) and the exact rational Mean, Median, "
+        "Variance, Events and %-gated on their finite values; TLC "
+        "enumerates every data instance (NaN/inf/ties) x every mask x "
+        "enabled x poisoned-excluded-events. For each case the filtered "
+        "dataset and a dataset holding only the used events are built and "
+        "every entry point (statistics, 4 KDE types x linear/log scatter, "
+        "explicit positions, contour grids, downsampled scatter, tsv) must "
+        "agree between the two, the statistics also with TLC's rationals. "
+        "Recorded larger datasets are judged by TLC (StatsTrace): contour "
+        "densities must not depend on excluded events and the quantile "
+        "level must leave the fraction q of the events below it."),
+  note=("claimed without the clause 'each density estimate equals the "
+        "reference estimator' (transcendental numerics, no finite model; "
+        "DESIGN section 7) and without the Freedman-Diaconis Mode value "
+        "(only its non-interference); 1024 exhaustive cases + 60 (600) "
+        "recorded datasets."),
+  technique="TLC-enumerated cases with exact rational oracles + non-interference replay + TLC trace validation",
+ ),
 }
 
 NOT_YET = "check not built yet (work in progress; see DESIGN.md section 5)"
